@@ -908,6 +908,13 @@ class LuaASTEchoWriter(BaseLuaWriter):
                 self._indent -= 1
         if not short_if:
             yield self._get_text(node, b'end')
+        else:
+            # The parser consumes the "else" of a short-if whose else block
+            # is empty without storing a pair for it.
+            yield self._get_code_for_spaces(node)
+            if (self._pos < node.end_pos and
+                    self._tokens[self._pos].matches(lexer.TokKeyword(b'else'))):
+                yield self._get_text(node, b'else')
 
     def _walk_StatForStep(self, node):
         yield self._get_text(node, b'for')
